@@ -83,12 +83,18 @@ class C10(Oracle):
         # the fall-time wait before any retarget is allowed; nothing else
         others = [s for s in new if s.kind != "target"]
         pulses = [s for s in pcs.slots if s.kind in ("pulse", "ddelay")]
+        from .c02 import expected_fall_ends
+
         rest = pcs.end  # strict reading: fall time by the pulse's own mode
         rest_any = {pcs.end}  # every reading of "pending fall time"
         if pulses:
+            # the last real pulse and any detuned delay after it
+            for p in reversed(pulses):
+                rest = max(rest, p.tf + fall_time(p, pcs, slot_in_eom(p, pcs)))
+                if p.kind == "pulse":
+                    break
             p = pulses[-1]
-            rest = max(rest, p.tf + fall_time(p, pcs, slot_in_eom(p, pcs)))
-            rest_any = {max(pcs.end, p.tf + fall_time(p, pcs, m)) for m in (True, False)}
+            rest_any = {max(pcs.end, p.tf + fall_time(p, pcs, m)) for m in (True, False)} | expected_fall_ends(pcs)
         if want == cur and not tnew:
             ctx.probe("retarget_same_atoms")
             if len(others) > 1 or (others and others[0].kind != "delay"):
